@@ -508,6 +508,54 @@ func sortedAfter(p *Prog, mr mapRange, ap *ssa.Call) (bool, []*ssa.Call) {
 	// every sort of this slice in the function (the must-pass search stops at the first on each path)
 	sorts = nil
 	eachInstr(fn, func(in ssa.Instruction) { isSort(in) })
+	// a slice kept in a field of a local struct escapes when the struct is handed to a call (the
+	// serialiser): that call must come after the sort, not merely before the return
+	if fa, ok := storeAddr.(*ssa.FieldAddr); ok {
+		if owner, ok := fa.X.(*ssa.Alloc); ok {
+			bad := false
+			eachInstr(fn, func(in ssa.Instruction) {
+				cl, ok := in.(*ssa.Call)
+				if !ok || mr.Body[cl.Block()] {
+					return
+				}
+				takes := false
+				for _, a := range cl.Call.Args {
+					av := a
+					if mi, ok := av.(*ssa.MakeInterface); ok {
+						av = mi.X
+					}
+					if av == ssa.Value(owner) {
+						takes = true
+					}
+				}
+				if !takes {
+					return
+				}
+				// only calls after the loop matter
+				after := false
+				for _, s2 := range mr.Head.Succs {
+					if !mr.Body[s2] && (s2 == cl.Block() || reachFromBlock(s2)[cl.Block()]) {
+						after = true
+					}
+				}
+				if !after {
+					return
+				}
+				dom := false
+				for _, sc := range sorts {
+					if dominates(sc, cl) {
+						dom = true
+					}
+				}
+				if !dom {
+					bad = true
+				}
+			})
+			if bad {
+				return false, nil
+			}
+		}
+	}
 	return true, sorts
 }
 
@@ -1886,6 +1934,24 @@ func ruleCtxNonNil(id string) func(*Checker) {
 							what = fieldOf(fa).Name()
 						}
 					}
+					// once a Start callback's context was taken, what follows uses that one (it is what pairs the
+					// events), not the caller's own
+					if _, isPrm := canon(a).(*ssa.Parameter); isPrm && !strings.HasSuffix(what, "Start") && !strings.HasSuffix(what, "Already") {
+						started := false
+												for _, c2 := range callsIn(outerOf(fn)) {
+							if c2.Common().StaticCallee() != nil || c2.Common().IsInvoke() {
+								continue
+							}
+							if ld, ok := c2.Common().Value.(*ssa.UnOp); ok {
+								if fa, ok := ld.X.(*ssa.FieldAddr); ok && fieldOf(fa) != nil && strings.HasSuffix(fieldOf(fa).Name(), "Start") && c2.Value() != nil && ctxT(c2.Value().Type()) {
+									if sameGroup(fieldOf(fa).Name(), what) {
+										started = true
+									}
+								}
+							}
+						}
+						c.check(!started, id, p.FuncName(fn), fmt.Sprintf("context argument %d of %s is the request's", ai, what), p.Pos(ci.Pos()), "the context chosen after the Start callback", "the caller's own context is handed to "+what+" although a Start callback of the same group returned one for this request: a tracer that pairs start and end by that context sees a start without its end")
+					}
 					ok, why := nonNil(a, ci.Block(), map[ssa.Value]bool{})
 					c.check(ok, id, p.FuncName(fn), fmt.Sprintf("context argument %d of %s", ai, what), p.Pos(ci.Pos()), "the caller's context, or a tracer's on its not-nil edge", "a nil context can reach "+what+" ("+why+"): without a tracer the Start callback is not called, the variable keeps its zero value, and the fetcher / registry client is handed a nil context")
 				}
@@ -1940,4 +2006,32 @@ func lenZeroEdges(fn *ssa.Function, match func(ssa.Value) bool) []Edge {
 		}
 	}
 	return out
+}
+
+// outerOf: the outermost enclosing function.
+func outerOf(fn *ssa.Function) *ssa.Function {
+	for fn.Parent() != nil {
+		fn = fn.Parent()
+	}
+	return fn
+}
+
+// sameGroup: a Start field name and another callback / client method belong to
+// one request: RemotePackageDownload{Start,Success,Failure} + FetchSourcePackage,
+// RegistryPackageVersions{…} + ModulePackageVersions, RegistryPackageSource{…} +
+// ModulePackageSourceAddr.
+func sameGroup(start, what string) bool {
+	g := strings.TrimSuffix(start, "Start")
+	if strings.HasPrefix(what, g) {
+		return true
+	}
+	switch g {
+	case "RemotePackageDownload":
+		return what == "FetchSourcePackage"
+	case "RegistryPackageVersions":
+		return what == "ModulePackageVersions"
+	case "RegistryPackageSource":
+		return what == "ModulePackageSourceAddr"
+	}
+	return false
 }
